@@ -171,6 +171,37 @@ def main(tier, seed, extra_programs=None):
     trans += tr4
     nscen += n4
     log("[c04] scenario programs: %d programs, %d functions analysed (%d abstract states)" % (len(scen_sources), n4, s4))
+    # ---- 5. the code generator itself: Compile.tla is a twin of compiler.rs (locals / captures / scope exits / jumps / desugarings /
+    #         line table) for every statement and expression form but classes and imports.  For every scenario program and every
+    #         program TLC generates from Gen.tla within the budget, TLC computes the functions the compiler HAS to emit and the
+    #         exported chunks must be equal to them byte for byte (code, line table, constants, arity, captures), on both builds.
+    import compiletwin
+    tw = []
+    for fname, progs_ in families:
+        tw += [(["scenario", fname, pid_], toks) for pid_, toks in progs_ if isinstance(toks, list)]
+    tw += [(["scenario", "more", pid_], toks) for pid_, toks in
+           scenarios.closure_retention_scenarios() + scenarios.loop_state_scenarios() + scenarios.handler_intact_scenarios()
+           + scenarios.range_cache_scenarios() + scenarios.hashmap_scenarios(random.Random(seed), 60, exhaustive_pairs=False) if isinstance(toks, list)]
+    gens = [("scope", ["print", "var", "set", "block", "fn", "call", "lam", "return", "exprstmt"], 5 if tier == "quick" else 6, ("a",), None),
+            ("control", ["print", "var", "set", "if", "else", "while", "for", "break", "continue", "block", "arith"], 5 if tier == "quick" else 6, ("a",), None),
+            ("exceptions", ["print", "try", "catch", "finally", "throw", "fn", "call", "return", "while", "break", "var"], 6, ("a",), None),
+            ("mixed", ["print", "var", "set", "block", "if", "else", "fn", "call", "call1", "lam", "return", "while", "for", "break", "continue",
+                       "exprstmt", "arith", "try", "catch", "finally", "throw", "fiber"], 14, ("a", "b"), 6000 if tier == "quick" else 60000)]
+    for gname, vocab, budget, names, sim in gens:
+        gruns, gstats = profiles.generate(profcheck.make_cfg("c04t" + gname, vocab, budget, names=names, fnnames=("f",)), simulate=sim,
+                                          seed=seed + 4, module="MC_Gen", tag="c04t" + gname)
+        if gstats.get("violation"):
+            rep.violation("generated programs (%s): TLC reports\n%s" % (gname, gstats["violation"][:1500]), {"tlc": gstats["violation"]})
+        if tier == "quick" and len(gruns) > 6000:
+            random.Random(seed).shuffle(gruns)
+            gruns = gruns[:6000]
+        tw += [(["generated", gname, r["id"]], r["prog"]) for r in gruns]
+        states += max(gstats["distinct"], len(gruns))
+        trans += gstats["generated"]
+    ntw, nfw = compiletwin.check(rep, bins, tw, "program compiled by compiler.rs vs Compile.tla", tag="c04twin")
+    rep.coverage["programs_compared_with_the_compiler_twin"] = ntw
+    rep.coverage["functions_compared_byte_for_byte"] = nfw
+    nscen += ntw
     rep.coverage["states"] = states
     rep.coverage["transitions"] = trans
     rep.coverage["functions_analysed"] = nfn + n2 + n3
